@@ -25,7 +25,7 @@ RULE = ("a run = one operation history (5-15 operations: run / begin_session wit
         "(possibly sharing a base model object) and 2-3 scenarios each, with every scenario and every base model observed "
         "after every operation; non-trivial = at least two scenarios exist that share a base model object and at least one "
         "operation re-parameterised or stepped one of them; distinct = distinct event-log digest")
-REAL = ["BPTK_Py.bptk (register_scenario_manager, register_scenarios, run_scenarios, begin_session, run_step, end_session, reset_scenario_cache)",
+REAL = ["BPTK_Py.scenariomanager.scenario_manager_hybrid (deep copy per scenario) + HybridRunner for the hybrid leg", "BPTK_Py.bptk (register_scenario_manager, register_scenarios, run_scenarios, begin_session, run_step, end_session, reset_scenario_cache)",
         "BPTK_Py.scenariomanager (ScenarioManagerSd.get_cloned_model, SimulationScenario)", "BPTK_Py.scenariorunners.sd_runner",
         "BPTK_Py.sdsimulation", "BPTK_Py.server.bptkServer (/run)", "BPTK_Py.modeling.model + SD DSL", "pandas"]
 STUB = ["SdSimulation worker threads run serially (the models are deterministic; schedules of these threads are C08's subject)",
@@ -33,7 +33,7 @@ STUB = ["SdSimulation worker threads run serially (the models are deterministic;
 ASSUMPTIONS = ["after a session passed step-level settings for an element to a scenario, that scenario's OWN results are not judged until it is explicitly re-parameterised for that element (the property does not say whether step settings outlive the session); all other scenarios and the base models stay under the oracle",
                "the fresh-model oracle shares the DSL core with the system (its correctness is C01, not claimed)"]
 FAULT_KINDS = []
-PROBES = ["managers_share_base_object", "points_setting", "runspec_setting", "step_level_setting", "rest_run_setting", "session_left_open",
+PROBES = ["hybrid_manager", "managers_share_base_object", "points_setting", "runspec_setting", "step_level_setting", "rest_run_setting", "session_left_open",
           "scenario_added_later", "session_with_foreign_operations"]
 EXHAUSTIVE = {"quick": False, "thorough": False}
 
@@ -106,8 +106,94 @@ def plan(tier, verif_seed):
         yield {"i": i, "seed": derive_seed(verif_seed, PROPERTY, i), "keep_sample": i < 1}
 
 
+def generate_hybrid(rng):
+    """hybrid / ABM leg: scenarios of one ScenarioManagerHybrid are deep copies of one model object"""
+    from worlds import abm_world as W
+    scs = [W.gen_scenario(rng, allow_zero_stop=False, small=True) for _ in range(rng.choice([2, 2, 3]))]
+    for sc in scs:
+        sc["init"] = [["a", rng.choice([1, 2, 4])], ["b", rng.choice([0, 1, 3])]]
+    names = ["s%d" % n for n in range(len(scs))]
+    ops = []
+    for _ in range(rng.randint(3, 7)):
+        r = rng.random()
+        if r < 0.6:
+            ops.append({"op": "run", "scenarios": rng.sample(names, rng.randint(1, len(names)))})
+        else:
+            ops.append({"op": "reset_cache", "scenario": rng.choice(names)})
+    return {"property": PROPERTY, "kind": "hybrid", "scenarios": scs, "ops": ops}
+
+
+def execute_hybrid(case, prop="C06"):
+    from sim.core import canon
+    from worlds import abm_world as W
+    log = EventLog()
+    res = RunResult()
+    scs = case["scenarios"]
+    names = ["s%d" % n for n in range(len(scs))]
+    log.add("case", case["ops"])
+    with patches.installed(threads="serial", global_thread=True):
+        solo = {}
+        solo_has_output = {}
+        for n, sc in enumerate(scs):
+            b1, ms = W.build_bptk([sc])
+            o1 = b1.run_scenarios(scenarios=["s0"], scenario_managers=["smAbm"], agents=["a", "b"], agent_states=["idle"], series_names={}, return_format="dict")
+            solo[names[n]] = canon({repr(t): v for t, v in ms[0].statistics().items()})
+            solo_has_output[names[n]] = isinstance(o1, dict) and "s0" in o1.get("smAbm", {})
+            b1.destroy()
+        b, models = W.build_bptk(scs)
+        state = {nm: "fresh" for nm in names}
+        res.probe("hybrid_manager")
+        for k, op in enumerate(case["ops"]):
+            log.add("op", k, op)
+            try:
+                if op["op"] == "run":
+                    out = b.run_scenarios(scenarios=list(op["scenarios"]), scenario_managers=["smAbm"], agents=["a", "b"], agent_states=["idle"],
+                                          series_names={}, return_format="dict")
+                    first_run = [nm for nm in op["scenarios"] if state[nm] in ("fresh", "ran")]
+                    for nm in op["scenarios"]:
+                        state[nm] = "ran" if state[nm] in ("fresh", "ran") else "reran"
+                    # a scenario run for the first time reports what it reports when it is run alone (a re-run after a cache
+                    # reset continues from the agents' current state and is not compared)
+                    missing = [nm for nm in first_run if solo_has_output[nm] and (not isinstance(out, dict) or nm not in out.get("smAbm", {}))]
+                    if missing:
+                        res.violate(prop + ".hybrid-no-results", {"op": op, "missing": missing, "op_index": k})
+                        break
+                else:
+                    b.reset_scenario_cache(scenario_manager="smAbm", scenario=op["scenario"])
+                    state[op["scenario"]] = "reset" if state[op["scenario"]] != "fresh" else "fresh"
+            except Exception as e:
+                res.violate(prop + ".operation-raised", {"op": op, "exception": type(e).__name__, "message": str(e)[:120]})
+                break
+            for n, nm in enumerate(names):
+                stats = canon({repr(t): v for t, v in models[n].statistics().items()})
+                if state[nm] == "ran" and stats != solo[nm]:
+                    res.violate(prop + ".other-scenario-changed", {"scenario": nm, "after_op": op, "op_index": k, "times_reported": sorted(stats)[:6],
+                                                                   "times_alone": sorted(solo[nm])[:6]})
+                    break
+                if state[nm] in ("fresh", "reset") and stats:
+                    res.violate(prop + ".other-scenario-changed", {"scenario": nm, "after_op": op, "op_index": k, "unexpected_statistics_for_times": sorted(stats)[:6]})
+                    break
+            if res.violations:
+                break
+            if state.get(op.get("scenario")) == "reset":
+                state[op["scenario"]] = "reran_pending"
+            for nm in names:
+                if state[nm] == "reran_pending" and op["op"] == "run" and nm in op.get("scenarios", []):
+                    state[nm] = "reran"
+        try:
+            b.destroy()
+        except Exception:
+            pass
+    res.sim_units = len(case["ops"])
+    res.nontrivial = len(scs) >= 2
+    res.digest = log.digest()
+    return res
+
+
 def generate(spec):
     rng = random.Random(spec["seed"])
+    if rng.random() < 0.2:
+        return generate_hybrid(rng)
     cfg = gen_config(rng)
     keys = [(m["name"], s) for m in cfg["managers"] for s in m["scenarios"]]
     tpl_of = {m["name"]: cfg["bases"][m["base"]]["template"] for m in cfg["managers"]}
@@ -219,6 +305,8 @@ def apply_op(w, op, res):
 
 
 def execute(case, prop="C06"):
+    if case.get("kind") == "hybrid":
+        return execute_hybrid(case, prop)
     log = EventLog()
     res = RunResult()
     with patches.installed(threads="serial"):
@@ -336,6 +424,18 @@ def run_history(w, case, res, log, prop, twin_factory=None):
 
 
 def shrink(case):
+    if case.get("kind") == "hybrid":
+        for cand in shrink_list(case["ops"], min_len=1):
+            c = copy.deepcopy(case)
+            c["ops"] = copy.deepcopy(cand)
+            yield c
+        for j, sc in enumerate(case["scenarios"]):
+            for key in ("pop", "states", "props", "sends", "acts"):
+                if sc.get(key):
+                    c = copy.deepcopy(case)
+                    c["scenarios"][j][key] = []
+                    yield c
+        return
     for cand in shrink_list(case["ops"]):
         c = copy.deepcopy(case)
         c["ops"] = copy.deepcopy(cand)
